@@ -5,6 +5,13 @@
 //! and the rest of the case prints `dead`.
 mod util;
 mod fam_time;
+mod alloc;
+mod amftext;
+mod refcodec;
+mod fam_amf;
+
+#[global_allocator]
+static GLOBAL: alloc::Counting = alloc::Counting;
 
 use std::io::{BufRead, Write};
 use std::panic::{catch_unwind, AssertUnwindSafe};
@@ -24,6 +31,15 @@ fn exec(st: &mut State, toks: &[&str]) -> String {
             (Ok(a), Ok(b)) => fam_time::laws(a, b),
             _ => "bad-op".into(),
         },
+        ["amf.dec", h] => fam_amf::dec(h),
+        ["?amf.enc", v] => fam_amf::enc(v),
+        ["utf8", h] => fam_amf::utf8(h),
+        ["!amf.rt", v] => fam_amf::rt(v),
+        ["!amf.spec", v] => fam_amf::spec(v),
+        ["!amf.refdec", v, seed] => fam_amf::refdec(v, seed.parse().unwrap_or(0)),
+        ["!amf.trunc", v] => fam_amf::trunc(v),
+        ["!amf.marker", m, tail] => fam_amf::marker(m.parse().unwrap_or(0), tail),
+        ["!amf.adv", kind, n, kb] => fam_amf::adversarial(kind, n.parse().unwrap_or(0), kb.parse().unwrap_or(512)),
         _ => {
             let _ = st;
             "bad-op".into()
